@@ -6,7 +6,7 @@ props = [json.loads(l) for l in open(os.path.join(HERE, 'properties.jsonl'))]
 ids = [p['id'] for p in props]
 
 TIE = ('Tie to the code, checked on every run: (a) tools/gen_lean.py regenerates FR/Generated from /repo and the leaf library Bridge proves it equal to '
-       'the frozen model tables (139 signatures, messages, constants, _fix_range*, check_arity; since round 4 also Bridge/Mech: CommandItem value/expireat setters, update, updated, __bool__, writeback and Database.expired translated statement by statement from the AST and proved equal to the model's CI.* / Db.expired, and Bridge/Effects: per-command effect atoms extracted from the body ASTs agree with the model's read / in-place / replacing / regular-vs-server-level classification); (b) differential correspondence: the real FakeSocket objects and the compiled Lean model run the same generated '
+       'the frozen model tables (139 signatures, messages, constants, _fix_range*, check_arity; since round 4 also Bridge/Mech: CommandItem value/expireat setters, update, updated, __bool__, writeback and Database.expired translated statement by statement from the AST and proved equal to CI.* and Db.expired of the model, and Bridge/Effects: per-command effect atoms extracted from the body ASTs agree with the read / in-place / replacing / regular-vs-server-level classification); (b) differential correspondence: the real FakeSocket objects and the compiled Lean model run the same generated '
        'histories under a logical clock and recorded random picks; replies and the live state of all databases, subscription tables and '
        'connection modes are compared after every event. ')
 NOTE = ('Trusted: Lean kernel (+ leanchecker in thorough); axioms printed per theorem (only propext, Classical.choice, Quot.sound); the translator; the '
